@@ -421,6 +421,32 @@ Definition ob_send_disc : bool :=
 Definition ob_send_body : bool :=
   forallb (fun p => match fut_h send_mutex 0 Before (inst_h 0 cfg_obj p) with [None] => true | _ => false end) send_paths.
 
+(* ---- Client state under concurrent dials (frame property) ----
+   Every field of mail.Client is one object Guarded by Client.mutex: a write needs the mutex exclusively,
+   a read needs it in either mode.  A "dial program" never takes the mutex exclusively. *)
+Definition prot_dial (o : obj) : protection :=
+  match o with
+  | OMem x => if N.eqb x cfg_obj then Guarded cfg_mutex else Private
+  | OConn _ => Private
+  end.
+Definition no_excl (m : N) (t : list event) : bool := forallb (fun e => negb (is_lock m e)) t.
+Definition writes_guarded (prot : obj -> protection) (m : N) (e : event) : bool :=
+  match access e with
+  | Some (o, W) => match prot o with Guarded m' => N.eqb m' m | _ => false end
+  | _ => false
+  end.
+(* source obligation (interprocedural, from the translator's write inventory): every write of a Client
+   field on a path reachable from DialWithContext / DialAndSend / Send / Close / Reset happens with
+   c.mutex held EXCLUSIVELY by the calling chain (so never under RLock only, never without the lock) *)
+Definition ob_client_writes_excl : bool :=
+  forallb (fun w => match w with (_, _, ex, _) => holds is_cfg_mutex ex end) client_field_writes.
+(* the generated dial / sendSingleMsg paths themselves (calls dropped: their writes are covered by the
+   inventory above) obey the discipline and never take c.mutex exclusively *)
+Definition ob_dial_frame : bool :=
+  forallb (fun p => disc prot_dial h0 (inst 0 cfg_obj (fun _ => []) p)
+                    && no_excl cfg_mutex (inst 0 cfg_obj (fun _ => []) p))
+          (dial_paths ++ send_single_paths).
+
 (* ---------------------------------------------------------------------------------------------
    Concrete bodies used by the examples, the refutation witness and the correspondence check. *)
 (* one smtp command = one execution of smtp.Client.cmd (its longest generated path) for connection k,
